@@ -282,8 +282,8 @@ def run_case(job):
     in_step_expected = True
     if kind == "session" and "put_under_file" in case["pieces"] and code == 1 and not signaled:
         cw = coarse(full_want)
-        cut_at = [i for i, x in enumerate(case["pieces"]) if x == "put_under_file"]
-        if any(coarse(replies) == cw[:i] for i in range(len(cw) + 1)) and len(replies) < len(full_want) and cut_at:
+        at = case["pieces"].index("put_under_file")       # every request before it is answered by exactly one reply
+        if len(replies) == at < len(full_want) and coarse(replies) == cw[:at]:
             in_step_expected = False
     rec = {"kind": kind, "pro": case["pro"], "pieces": case["pieces"], "exit": code if not signaled else -1, "signaled": signaled, "timed_out": code == 124,
            "replies": replies, "f": f, "conf": conf, "tree_unchanged": (f == "c1" and conf == "none" and not other),
